@@ -117,7 +117,9 @@ fn single(seed: u64, idx: u64) -> Tally {
     // instruments its whole suite would do; created after init_tracing() installed the subscriber
     let outer = idx % 4 == 1;
     if outer {
-        fut = Box::pin(tracing::Instrument::instrument(fut, tracing::info_span!("whole-suite")));
+        // ... carrying fields of its own, among them unsigned integers in the range of scenario ids
+        let worker = idx % 5;
+        fut = Box::pin(tracing::Instrument::instrument(fut, tracing::info_span!("whole-suite", worker, pid = std::process::id(), name = "suite")));
     }
     let q = sink.0.clone();
     let mut done = false;
